@@ -9,6 +9,8 @@ DRIVER = os.path.join(LEAN, '.lake', 'build', 'bin', 'sqlmodel')
 EVID = os.path.join(VERIF, 'evidence')
 REPLAYS = os.path.join(EVID, 'replays')
 REPO = os.environ.get('SQLPARSE_REPO', '/repo')
+if REPO not in sys.path:
+    sys.path.insert(0, REPO)
 PY = '/venv/bin/python'
 NCPU = os.cpu_count() or 4
 ALLOWED_AXIOMS = {'propext', 'Classical.choice', 'Quot.sound'}
